@@ -8,11 +8,11 @@ from fractions import Fraction
 READY = True
 
 META = {
-    "technique": "Lean 4 proof (model of ops::coerce/add/sub/mul/int_div/rem/pow/neg/int_as_value over the four integer representations and Bool: exact-or-error, total on the signed 128-bit range, width independent, Euclid law; ** for every exponent; float + - * proved exactly rounded on a bit-pattern model whose rounding function is proved round-to-nearest-even; tests, filters and string parsing modelled) + differential run of the model against the real engine + exact-integer/rational and IEEE oracle",
+    "technique": "Lean 4 proof (model of ops::coerce/add/sub/mul/int_div/rem/pow/neg/int_as_value over the four integer representations and Bool: exact-or-error, total on the signed 128-bit range, width independent, Euclid law; ** for every exponent; float + - * proved exactly rounded on a bit-pattern model whose rounding function is proved round-to-nearest-even; tests, filters and string parsing modelled; final form `C08_main`: the full statement follows from ONE named hypothesis, unary minus at 2^127, which is the recorded finding; `cmp_zero_signs_equal`: -0.0, 0.0 and the integer 0 of every width are one number for all six operators) + differential run of the model against the real engine + exact-integer/rational and IEEE oracle",
     "category": "proof",
-    "text": "The full statement is FALSE on the pinned code at exactly one operand, proved as `C08_counterexample : ¬ C08_full` (unary minus of 2^127 stored as u128 returns +2^127; kept as a recorded known finding because an existing snapshot pins it); everything else is proved as `C08_holds_partial` with that operand as an explicit hypothesis of the unary-minus exactness clause only. Kernel-checked theorems about the Lean model of minijinja's integer arithmetic (every representation U64/I64/U128/I128, every well-formed payload): a successful + - * // % ** or unary minus returns the mathematically exact integer, the operation succeeds whenever operands and result fit the signed 128-bit range (divisor non-zero, exponent non-negative), the outcome depends only on the mathematical operands and not on the stored width, and // and % satisfy q*b + r = a with 0 <= r < |b|. Round 5: ** completely (`pow_exact`, `pow_total_in_range` for EVERY non-negative exponent of the 128-bit range - two defects fixed on the way: 1 ** 2^32 failed, commit 3a8d5c6 - `pow_large_exponent_error`: an exponent >= 128 with |base| >= 2 is an error whatever its low 32 bits, `pow_negative_exponent_error`); Bool operands (`bool_operand_as_u64`: in every binary operator a Bool is exactly the u64 0/1, hence exact, total and width independent; `neg_bool_error`; `bool_eq_number_exact`; `bool_before_every_number`: the ordering operators compare the kinds first); the tests odd / even / divisibleby on every integer representation (`odd_exact`, `even_exact`, `divisibleby_exact`: the same % as the operator, i128::MIN divisibleby -1 included, `tests_width_independent`), min / max on integer/float mixes (`min_max_exact`), round on integers; strings through the int filter (`int_text_sound`: str::parse::<i128> accepts an optional sign and ASCII digits only - no blanks, `_`, radix prefixes; `int_filter_string_sound`: the only other way to an integer is the exact truncation of an accepted float text; `int_text_exact`: sign, leading zeros, digits -> that integer; `int_text_overflow_is_error`: an integer text outside i128 is an error, never the neighbour its float approximation truncates to - second defect fixed, commit ab4512f); floats: `round_to_nearest_even` - the rounding function of the model returns a double nearest to p/q, the even one on a tie, against every bit pattern - hence float + - * / are exactly rounded (`float_add_rounded`, `float_sub_rounded`, `float_mul_rounded`, `float_div_rounded`) and exact when the result is a double (`float_*_exact`), decimal texts are read correctly rounded (`float_text_rounded_*`), and the IEEE 754-2008 special cases of ** hold as a table (`float_pow_special_table`). Integer literals: the Lean model of Tokenizer::eat_number is proved to read every well-formed spelling as the token for its value and to reject values >= 2^128. Finite doubles are bit patterns with exact dyadic values (no Float): int/float comparison is proved exact for all i64/u64/i128/u128 x non-NaN doubles, int->float conversion exact below 2^53 and within half an ulp with ties to even above, float % and // produce the Euclidean remainder/quotient of the exact values whenever those are representable, int-of-float exact or error. The model is tied to /repo by ~5*10^5 (quick) cases - the boundary zoo squared, a representation box (24 core values in every pair of forms under every operator, comparison, filter and test), ** on [-17,17] x [0,130] plus the overflow edge of every exponent and exponents around and beyond 2^32, Bool operands everywhere, float arithmetic aimed at ties / cancellation / overflow / underflow, float ** on all class pairs, round(precision), strings around every boundary - run through Expression::eval, template rendering, a run-time (unfoldable) variant and 17 other features / entry points, and through the compiled Lean model (0 disagreements on ~95% of the cases, the rest is libm pow and consistency-only functions); an independent Python oracle (unbounded ints, Fractions, IEEE doubles) adjudicates.",
+    "text": "The full statement is FALSE on the pinned code at exactly one operand, proved as `C08_counterexample : ¬ C08_full` (unary minus of 2^127 stored as u128 returns +2^127; kept as a recorded known finding because an existing snapshot pins it); everything else is proved as `C08_holds_partial` with that operand as an explicit hypothesis of the unary-minus exactness clause only. Kernel-checked theorems about the Lean model of minijinja's integer arithmetic (every representation U64/I64/U128/I128, every well-formed payload): a successful + - * // % ** or unary minus returns the mathematically exact integer, the operation succeeds whenever operands and result fit the signed 128-bit range (divisor non-zero, exponent non-negative), the outcome depends only on the mathematical operands and not on the stored width, and // and % satisfy q*b + r = a with 0 <= r < |b|. Round 5: ** completely (`pow_exact`, `pow_total_in_range` for EVERY non-negative exponent of the 128-bit range - two defects fixed on the way: 1 ** 2^32 failed, commit 3a8d5c6 - `pow_large_exponent_error`: an exponent >= 128 with |base| >= 2 is an error whatever its low 32 bits, `pow_negative_exponent_error`); Bool operands (`bool_operand_as_u64`: in every binary operator a Bool is exactly the u64 0/1, hence exact, total and width independent; `neg_bool_error`; `bool_eq_number_exact`; `bool_before_every_number`: the ordering operators compare the kinds first); the tests odd / even / divisibleby on every integer representation (`odd_exact`, `even_exact`, `divisibleby_exact`: the same % as the operator, i128::MIN divisibleby -1 included, `tests_width_independent`), min / max on integer/float mixes (`min_max_exact`), round on integers; strings through the int filter (`int_text_sound`: str::parse::<i128> accepts an optional sign and ASCII digits only - no blanks, `_`, radix prefixes; `int_filter_string_sound`: the only other way to an integer is the exact truncation of an accepted float text; `int_text_exact`: sign, leading zeros, digits -> that integer; `int_text_overflow_is_error`: an integer text outside i128 is an error, never the neighbour its float approximation truncates to - second defect fixed, commit ab4512f); floats: `round_to_nearest_even` - the rounding function of the model returns a double nearest to p/q, the even one on a tie, against every bit pattern - hence float + - * / are exactly rounded (`float_add_rounded`, `float_sub_rounded`, `float_mul_rounded`, `float_div_rounded`) and exact when the result is a double (`float_*_exact`), decimal texts are read correctly rounded (`float_text_rounded_*`), and the IEEE 754-2008 special cases of ** hold as a table (`float_pow_special_table`). Integer literals: the Lean model of Tokenizer::eat_number is proved to read every well-formed spelling as the token for its value and to reject values >= 2^128. Finite doubles are bit patterns with exact dyadic values (no Float): int/float comparison is proved exact for all i64/u64/i128/u128 x non-NaN doubles, int->float conversion exact below 2^53 and within half an ulp with ties to even above, float % and // produce the Euclidean remainder/quotient of the exact values whenever those are representable, int-of-float exact or error. The model is tied to /repo by ~5*10^5 (quick) cases - the boundary zoo squared, a representation box (24 core values in every pair of forms under every operator, comparison, filter and test), ** on [-17,17] x [0,130] plus the overflow edge of every exponent and exponents around and beyond 2^32, Bool operands everywhere, float arithmetic aimed at ties / cancellation / overflow / underflow, float ** on all class pairs, round(precision), strings around every boundary - run through Expression::eval, template rendering, a run-time (unfoldable) variant and 17 other features / entry points, and through the compiled Lean model (0 disagreements on ~95% of the cases, the rest is libm pow and consistency-only functions); an independent Python oracle (unbounded ints, Fractions, IEEE doubles) adjudicates. Session 4: `C08_main (h : NegOf2p127Exact) : C08_full ∧ C08_full_num` (integer clauses + comparison exact + float Euclid law) with `C08_main_gap_is_open : ¬ NegOf2p127Exact ∧ (NegOf2p127Exact ↔ C08_full)` - the gap between the code and the full statement is exactly that one operand; `cmp_zero_signs_equal` / `zero_signs_table` / `cmp_f64_zero_signs_equal` (the `left == right` guard of cmp_f64 is what keeps -0.0 from sorting below 0: `totalCmp negZero 0 = .lt`). New generator axes: NEGATIVE ZERO as literal (three spellings, bare and parenthesised minus), variable (f64, serde f64, f32, serde f32) and COMPUTED operand (new operand form `fexp:(X<op>Y)=bits`: `0.0*(-1)`, `(-4.0)%2.0`, `(-0.0)/3`, `(-6)%2.0`, underflowing products) in every two-operand comparison against every zero (each integer form, +0.0 literal / variable / computed) and the nearest non-zero numbers, in first / middle / last position of chains under all 36 operator pairs, and in the tests / select / reject / selectattr under all 15 names; COMPUTED OPERANDS in general: every nested case `(A op1 B) op2 C` now carries the engine's inner value and the outer operator is judged by the full oracle on (that value, C) instead of by consistency only; FLOAT RESULTS AS TEXT: every float result is read back from its rendered text and has to be the same number (no digit lost on the way out; shortness and notation are not demanded).",
     "design_ref": "DESIGN.md §3 C08",
-    "level_note": "Trusted: Lean kernel; hand transcription of ops.rs (coerce, int_as_value, add, sub, mul, div, int_div, rem, pow, neg, as_f64, f64_div_euclid), of i128::try_from(Value) incl. its Bool and float arms, of filters abs/int/float/round/sum/min/max, tests odd/even/divisibleby, str::parse::<i128>/<f64> and of Tokenizer::eat_number into MJ/Model/{Num,NumF,NumLex,NumX}.lean (comparisons: C07's MJ/Model/Cmp.lean), validated differentially on every generated case they cover; source facts the model duplicates (neg's special constant, the checked_* method of each operator, the exponent conversion and unit-base arm of pow, the lexer's prefix table and parsing calls, `x % 2 != 0`, wrapping_rem, the parse steps of the int filter, f64_to_int's limit, `val as usize`) are regenerated from /repo and re-proved equal on every run. Rust's i128::checked_* and from_str are modelled by their contract; IEEE operations by exact-result-then-round (encodeRat, proved to be round-to-nearest-even). Validated only (model or oracle, no theorem): round(precision) (bit-exact model built from the proved-rounded * and /), powf outside the special cases and exact small powers (libm, within 1 ulp), odd/even/divisibleby on floats, that f64::from_str itself is correctly rounded (the model is, the engine agrees on every case), range, batch, `~`, filesizeformat/truncate/indent arguments (consistency across widths only).",
+    "level_note": "Trusted: Lean kernel; hand transcription of ops.rs (coerce, int_as_value, add, sub, mul, div, int_div, rem, pow, neg, as_f64, f64_div_euclid), of i128::try_from(Value) incl. its Bool and float arms, of filters abs/int/float/round/sum/min/max, tests odd/even/divisibleby, str::parse::<i128>/<f64> and of Tokenizer::eat_number into MJ/Model/{Num,NumF,NumLex,NumX}.lean (comparisons: C07's MJ/Model/Cmp.lean), validated differentially on every generated case they cover; source facts the model duplicates (neg's special constant, the checked_* method of each operator, the exponent conversion and unit-base arm of pow, the lexer's prefix table and parsing calls, `x % 2 != 0`, wrapping_rem, the parse steps of the int filter, f64_to_int's limit, `val as usize`) are regenerated from /repo and re-proved equal on every run. Rust's i128::checked_* and from_str are modelled by their contract; IEEE operations by exact-result-then-round (encodeRat, proved to be round-to-nearest-even). Validated only (model or oracle, no theorem): round(precision) (bit-exact model built from the proved-rounded * and /), powf outside the special cases and exact small powers (libm, within 1 ulp), odd/even/divisibleby on floats, that f64::from_str itself is correctly rounded (the model is, the engine agrees on every case), range, batch, `~`, filesizeformat/truncate/indent arguments (consistency across widths only). MOVED FROM VALIDATED TO PROVED in session 4: the equality of the zeros of either sign under every comparison operator (`cmp_zero_signs_equal`, `zero_signs_table`: was an instance of `cmp_ops_exact` nobody had stated; the seeded change C08-7 lives exactly there), the role of cmp_f64's guard (`cmp_f64_zero_signs_equal`), and the final form: `C08_main` makes the distance between what is proved and the full statement ONE named hypothesis (`NegOf2p127Exact`, refuted on the current code by `C08_main_gap_is_open` = the recorded known finding; every other clause of `C08_full` and the comparison / float-Euclid sentence `C08_full_num` are discharged by audited theorems). STILL WITH A HYPOTHESIS: float + - * / are proved correctly rounded under `isFinite (result)`: subnormal results are covered (the low branch of encodeRat is the integer grid), overflow to +-inf is not characterised by a theorem (the statement would be `encodeRat p q = infMag <-> (2^54 - 1) * 2^2044 * q <= p`; it needs the log2 / binade reasoning of encodeRat_spec_hi once more for the saturating branch and was not finished in the session) - the model saturates there, the float-arith stream aims random pairs at the overflow edge and Python's IEEE doubles adjudicate every case. NOT MODELLED IN LEAN, ORACLE ONLY: the decimal text of a float result (Rust's `Display for f64`, shortest round-trip): validated by reading every float result back (Python float(), correctly rounded) on ~10^5 float results per quick run; float literal lexing is modelled and proved correctly rounded (`float_text_rounded_*`) for mantissa * 10^e, |e| <= 400. A regenerated-table tie for the shape of cmp_f64 (guard before total order) was considered and left out: it would only turn a source-shape change into `no-failing-input-found`, while the behaviour is reached by ~2*10^4 negative-zero cases.",
 }
 
 P63, P64, P127, P128 = 1 << 63, 1 << 64, 1 << 127, 1 << 128
@@ -62,6 +62,23 @@ class BadCase(Exception):
     pass
 
 
+def value_of_float_expression(text):
+    """`(X<op>Y)`, X and Y number literals (a minus sign / parentheses allowed), op in * / %:
+    the double the engine has to compute (operands as doubles; % is f64::rem_euclid)"""
+    m = re.fullmatch(r"\((\(?-?[0-9][0-9.e_-]*\)?)([*/%])(\(?-?[0-9][0-9.e_-]*\)?)\)", text)
+    if not m:
+        raise BadCase(f"generator: float expression {text} is not of the form (X<op>Y)")
+    x, op, y = float(m.group(1).strip("()").replace("_", "")), m.group(2), float(m.group(3).strip("()").replace("_", ""))
+    if op == "*":
+        return x * y
+    if y == 0:
+        raise BadCase(f"generator: float expression {text} divides by zero")
+    if op == "/":
+        return x / y
+    r = math.fmod(x, y)
+    return r + abs(y) if r < 0.0 else r
+
+
 def parse_operand(tok):
     """-> (kind 'i'|'f', value, form)"""
     form, val = tok.split(":", 1)
@@ -76,6 +93,14 @@ def parse_operand(tok):
         v = f_of_bits(bits)
         if struct.pack(">d", value_of_float_spelling(text)) != struct.pack(">d", v):
             raise BadCase(f"generator: float spelling {text} does not denote {bits}")
+        return ("f", v, form)
+    if form == "fexp":
+        # a float COMPUTED by the engine from two literals, `(X<op>Y)` with op one of * / %; the
+        # value the token announces is checked against an independent evaluation (IEEE doubles)
+        text, bits = val.rsplit("=", 1)
+        v = f_of_bits(bits)
+        if struct.pack(">d", value_of_float_expression(text)) != struct.pack(">d", v):
+            raise BadCase(f"generator: float expression {text} does not evaluate to {bits}")
         return ("f", v, form)
     if form == "src":
         text, dec = val.rsplit("=", 1)
@@ -402,7 +427,7 @@ def split_impl(impl):
     res, extra = parts[0], {}
     for p in parts[1:]:
         tag, _, v = p.partition("=")
-        if tag in ("render", "runtime", "conj", "conjrt", "via", "stepwise") or tag.startswith("embed"):
+        if tag in ("render", "runtime", "conj", "conjrt", "via", "stepwise", "inner", "shown") or tag.startswith("embed"):
             extra[tag] = v
         else:                      # a `|` inside a value
             res = res if not extra else res
@@ -419,8 +444,11 @@ def check_consistency(r, case, op, impl):
     time, printed by a template, and reached through other features / entry points"""
     res, extra = split_impl(impl)
     for tag, v in extra.items():
-        if tag == "render":
+        if tag in ("render", "inner"):
             continue               # reported by the stream's own check
+        if tag == "shown":
+            check_float_print(r, case, res, v)
+            continue
         if tag == "runtime":
             r.oracle_failure(case, f"constant folding gives {res}, the run-time operator gives {v}", "consistency:folded-vs-runtime")
         elif tag == "via":
@@ -433,6 +461,26 @@ def check_consistency(r, case, op, impl):
         else:
             r.oracle_failure(case, f"Expression::eval displays {res}, embedding {tag[5:]} prints {v!r}", f"consistency:embedding:{tag[5:]}")
     return res
+
+
+def check_float_print(r, case, res, text):
+    """a float result is observed as rendered text: the text has to denote that very double (read back
+    correctly rounded it gives the same bits), so that no digit the operators computed is lost on
+    the way out.  Shortness / notation are not demanded."""
+    if not res.startswith("f:"):
+        return
+    bits = res[2:]
+    try:
+        back = float(text.replace("_", "x"))        # Python's float() would accept `_`
+    except ValueError:
+        r.oracle_failure(case, f"the float result {bits} is printed as {text!r}, which is not a number text", "float:print:not-a-number-text")
+        return
+    if bits == "nan" or (int(bits, 16) & 0x7fffffffffffffff) > 0x7ff0000000000000:
+        ok = back != back
+    else:
+        ok = back == f_of_bits(bits)                # as numbers: the sign of a zero is not demanded
+    if not ok:
+        r.oracle_failure(case, f"the float result {f_of_bits(bits)!r} (bits {bits}) is printed as {text!r}, which reads back as {back!r}", "float:print:not-round-trip")
 
 
 def as_exact(res):
@@ -814,10 +862,19 @@ def judge_core(case, impl):
     check_consistency(c, case, op, impl)
     if op.startswith("nest:"):
         stream = "nested"
-        res = split_impl(impl)[0]
+        res, extra = split_impl(impl)
         if res == "panic":
             c.oracle_failure(case, "panic", "nested:panic")
         out = "err" if res.startswith("err:") else "consistent"
+        # `(A op1 B) op2 C`: the value V the engine computed for `A op1 B` (judged by the case `op1 A B`
+        # of its own) is an operand like any other - the outer operator on (V, C) gets the full oracle
+        tok = computed_operand_token(extra.get("inner", ""))
+        o2 = op.split(":", 1)[1].split(",")[1]
+        if tok is not None and len(f) == 4 and not any(k in extra for k in ("stepwise", "runtime")):
+            sub = judge_core(f"{o2} {tok} {f[3]}", res)
+            for _, what, site in sub[4]:
+                c.oracle_failure(case, f"with the computed left operand {tok}: {what}", site)   # same site as the direct form
+            out = "judged:" + sub[2]
     elif op.startswith("chain:"):
         stream = "chain"
         out = check_chain(c, case, op, opds, impl)
@@ -857,6 +914,18 @@ def judge_core(case, impl):
         stream = "float-euclid"
         out = check_float_euclid(c, case, op, A, B, impl)
     return stream, op, out, key, c.fails
+
+
+def computed_operand_token(inner):
+    """engine value of an inner expression -> operand token of the same value (None: not a finite number)"""
+    if inner.startswith("i:"):
+        v = int(inner[2:])
+        return ("i128:%d" if in_i128(v) else "u128:%d") % v
+    if inner.startswith("f:") and inner[2:] != "nan":
+        bits = int(inner[2:], 16)
+        if (bits & 0x7fffffffffffffff) < 0x7ff0000000000000:
+            return "f64:%016x" % bits
+    return None
 
 
 def explained_by_neg_defect(case, impl):
@@ -918,7 +987,7 @@ def shard_of(case, n):
     """cases with the same operator and the same mathematical operands land in the same shard (the
     width-independence check compares them); deterministic"""
     f = case.split(" ")
-    vals = [t.rsplit("=", 1)[1] if t.startswith(("src:", "fsrc:")) else t.split(":", 1)[-1] for t in f[1:]]
+    vals = [t.rsplit("=", 1)[1] if t.startswith(("src:", "fsrc:", "fexp:")) else t.split(":", 1)[-1] for t in f[1:]]
     return zlib.crc32((f[0] + " " + " ".join(vals)).encode()) % n
 
 
@@ -945,8 +1014,14 @@ class _Shard:
         self.samples.append(obj)
 
 
+_INFO_TAGS = re.compile(r"\|(?:shown|inner)=[^|]*")
+
+
 def same_result(impl, m):
-    """engine result line == model result line; any two NaNs are the same result"""
+    """engine result line == model result line; any two NaNs are the same result.  `|shown=` (the
+    text of a float result) and `|inner=` (the inner value of a nested case) are observations for
+    the oracle, not disagreements of the engine with itself"""
+    impl = _INFO_TAGS.sub("", impl)
     if impl == m:
         return True
     if impl.startswith("f:") and m.startswith("f:") and "|" not in impl:
@@ -999,7 +1074,7 @@ def run_shard(args):
         e = embedding_of(case)
         if e:
             sh.hist["embedding"][e] += 1
-        if any(t.split(":")[0] in ("lit", "src", "flit", "fsrc") for t in case.split(" ")[1:]):
+        if any(t.split(":")[0] in ("lit", "src", "flit", "fsrc", "fexp") for t in case.split(" ")[1:]):
             sh.hist["entry"]["folded-vs-runtime compared"] += 1
         if model is not None:
             c2, m, lspec = model[i].split("\t")
@@ -1042,7 +1117,11 @@ def run(r):
               "serde-passed operands; abs/int/float/round/sum filters and odd/even/divisibleby tests against the operators; strings "
               "through the int and float filters: sign x leading zeros x the integers around 0, 2^53, 2^63, 2^64, 2^127 (incl. the "
               "2^74 wide band below -2^127 whose float approximation is -2^127), blanks, separators, radix prefixes, exponents, "
-              "inf / nan words, long digit strings, random texts; a case is non-trivial when it is distinct and the exact result is defined")
+              "inf / nan words, long digit strings, random texts; NEGATIVE ZERO as literal / variable / computed operand (`fexp:` form) x every zero "
+              "(integer forms, +0.0, -0.0) and the nearest non-zero numbers x 6 comparisons both ways, chains with -0.0 in first / middle / last "
+              "position x 36 operator pairs, tests / select / reject / selectattr; nested cases `(A op1 B) op2 C` judged by the full oracle on the "
+              "engine's inner value (computed operands), targeted at inner zeros of either sign; every float result read back from its rendered text; "
+              "a case is non-trivial when it is distinct and the exact result is defined")
     r.assumptions = ["Rust's i128::checked_add/sub/mul/pow/div_euclid/rem_euclid return the exact result or None (std contract)",
                      "IEEE-754 binary64 +, -, *, /, fmod, trunc, round are the exact result rounded to nearest-even (the Lean float model encodes exactly that; validated bit-for-bit against the engine on every float case, and against Python's float arithmetic)",
                      "f64::from_str is correctly rounded (the Lean model of the float filter on strings computes the correctly rounded value; also judged against Python's float())",
@@ -1079,8 +1158,10 @@ def run(r):
         r.broken.extend(sh.broken[: max(0, 8 - len(r.broken))])
         for c, what, site in sh.fails:
             r.oracle_failure(c, what, site)
+            r.hist["failure-site"][str(site)] += 1      # every site with its count (finish() lists the first five only)
         for c, impl, m in sh.disagreements:
             r.model_disagreement(c, impl, m)
+            r.hist["disagreement-op"][c.split(" ")[0]] += 1
         r.evaluations += sh.evaluations
         r.distinct |= sh.distinct
         for k, cnt in sh.hist.items():
